@@ -19,6 +19,22 @@ Import ListNotations.
 (* level.params.residual_type *)
 Inductive restype := FullAbs | LastAbs | FullRel | LastRel.
 
+(* FullyImplicitDAE.compute_residual, after the per-node norms res_norm[m] = abs(eval_f(u[m+1], f[m+1], t_m)) are known:
+   stage in skip_residual_computation -> keep the old value (0.0 if None); else by residual_type
+   (n0 = abs(u[0]); max(...) over the nodes, [-1] = last node) *)
+Section ResidualStatus.
+  Context {R : Type} (rO : R) (rmax rdiv : R -> R -> R).
+  Definition maxl (l : list R) : R := match l with [] => rO | a :: l' => fold_left rmax l' a end.
+  Definition residual_status (rt : restype) (skip : bool) (old : option R) (res : list R) (n0 : R) : R :=
+    if skip then match old with None => rO | Some r => r end
+    else match rt with
+         | FullAbs => maxl res
+         | LastAbs => last res rO
+         | FullRel => rdiv (maxl res) n0
+         | LastRel => rdiv (last res rO) n0
+         end.
+End ResidualStatus.
+
 Section DAEModel.
   Context {K : Type} (kO : K) (kadd kmul ksub : K -> K -> K).
   Context {X : Type}.
@@ -78,19 +94,10 @@ Section DAEModel.
   (* FullyImplicitDAE.compute_residual: the vector whose norm enters the residual, node m *)
   Definition dae_residual_vec (u f : nat -> V) (m : nat) : V := evalF (u m) (f m) (tn m).
 
-  (* ... and the value stored in level.status.residual (skip = stage in skip_residual_computation) *)
+  (* ... and the value stored in level.status.residual *)
   Context {R : Type} (rO : R) (rmax rdiv : R -> R -> R) (norm : V -> R).
-  Definition maxl (l : list R) : R := match l with [] => rO | a :: l' => fold_left rmax l' a end.
   Definition dae_residual (rt : restype) (skip : bool) (old : option R) (u f : nat -> V) : R :=
-    if skip then match old with None => rO | Some r => r end
-    else
-      let res := map (fun m => norm (dae_residual_vec u f m)) (seq 1 M) in
-      match rt with
-      | FullAbs => maxl res
-      | LastAbs => last res rO
-      | FullRel => rdiv (maxl res) (norm (u 0))
-      | LastRel => rdiv (last res rO) (norm (u 0))
-      end.
+    residual_status rO rmax rdiv rt skip old (map (fun m => norm (dae_residual_vec u f m)) (seq 1 M)) (norm (u 0)).
 
   (* FullyImplicitDAE.compute_end_point: raises NotImplementedError (None) unless right_is_node and not
      do_coll_update, then defers to generic_implicit.compute_end_point (Model/Sweep.v end_point, one part) *)
@@ -176,4 +183,12 @@ Section SemiModel.
 
   (* compute_residual (inherited from FullyImplicitDAE) *)
   Definition si_residual_vec (u f : nat -> mesh) (m : nat) : mesh := evalF (u m) (f m) (tn m).
+  Context {R : Type} (rO : R) (rmax rdiv : R -> R -> R) (norm : mesh -> R).
+  Definition si_residual (rt : restype) (skip : bool) (old : option R) (u f : nat -> mesh) : R :=
+    residual_status rO rmax rdiv rt skip old (map (fun m => norm (si_residual_vec u f m)) (seq 1 M)) (norm (u 0)).
+
+  (* predict (inherited from FullyImplicitDAE; whole meshes) *)
+  Definition si_predict (spread : bool) (u f : nat -> mesh) : (nat -> mesh) * (nat -> mesh) :=
+    fold_left (fun st m => (upd (fst st) m (if spread then fst st 0 else (vzero kO, vzero kO)), upd (snd st) m (vzero kO, vzero kO)))
+              (seq 1 M) (u, upd f 0 (vzero kO, vzero kO)).
 End SemiModel.
